@@ -3,6 +3,6 @@ CONSTANTS
   Vary = {"fn", "sh", "shk"}
   Fns = {"Println", "Printf", "Print", "Sprint", "Errorf"}
   Shs = {"-", "echo", "print", "printf", "println", "errorf", "sprint", "fprintln", "fmt", "toUpper"}
-  ScopeAware = FALSE
+  ScopeAware = TRUE
 INVARIANTS TypeOK Confluent ImportSound Export
 PROPERTIES Stable Terminates
